@@ -68,3 +68,14 @@ namespace Bin
 end Bin
 
 end EdVerif.Prims
+
+namespace EdVerif.Prims
+/-- a memory event of a translated kernel, numerically coded so that the kernel can evaluate checks on it quickly:
+`kind` 0 = read, 1 = write; `param` = position of the pointer/slice parameter; `field` 0 = whole pointee, otherwise a
+per-function code of the field / constant index accessed -/
+structure Ev where
+  kind : Nat
+  param : Nat
+  field : Nat
+deriving Repr, DecidableEq
+end EdVerif.Prims
